@@ -19,6 +19,7 @@
 -/
 import QV.Proofs.WriterSession
 import QV.Proofs.WriterBridge
+import QV.Proofs.WriterRefine
 
 namespace QV.C12
 open QV QV.Writer QV.ServerSafety
@@ -38,11 +39,14 @@ open QV QV.Writer QV.ServerSafety
 
   Proved below for all operation sequences: (a) the invariant, (b) the size limit, (c) failed
   operations change nothing, (e) no spurious truncation, (f) the extended RCODE, no panic and
-  `finish` succeeds under the hint contract. Not proved: (d) the decoding half of `C12_full`
-  (that `specDecodeMsg` of the finished octets yields the abstract message) — the byte-level
-  facts it needs are proved (`QV.Writer.NameSpec`: every written name is stored, and denotes the
-  name given, exactly where the model says), but the round trip through the independent decoder
-  `specDecodeMsg` is only checked by the oracle (model column of `waudit`, 100 % of generated
+  `finish` succeeds under the hint contract, and (d) the decoding half **in `Disabled`
+  compression mode** (`C12_disabled_refinement`: the independent decoder `specDecodeMsg` reads the
+  finished octets as exactly the questions, records, OPT and TSIG record of the calls that
+  succeeded). Not proved: (d) for `Standard` / `CasePreserving` mode, where names may be
+  compressed — the byte-level facts it needs are proved (`QV.Writer.NameSpec`: every written name
+  is stored, and denotes the name given, exactly where the model says; C13: every pointer is
+  valid), but the round trip of *compressed* names through `specDecodeMsg` and the reading of the
+  header flag bits are only checked by the oracle (model column of `waudit`, 100 % of generated
   sessions). -/
 
 def C12_full : Prop :=
@@ -152,5 +156,60 @@ theorem C12_ext_rcode_roundtrip (s : State) (e : Edns) (v : Nat) (he : s.edns = 
 theorem C12_ext_rcode_rejects_above_4095 (s : State) (v : Nat) (hv : v > 4095) :
     setExtendedRcode v s = (.err (if s.edns.isSome then .ExtendedRcodeOverflow else .NotEdns), s) :=
   setExtendedRcode_rejects s v hv
+
+
+/-! ## (d) refinement: the finished message decodes to what was given (`Disabled` mode)
+
+  For **all** sequences of calls that respect the API contract and stay in `Disabled` compression
+  mode, the specification's independent RFC 1035 decoder `specDecodeMsg` reads the finished
+  message as exactly: the questions and records of the calls that succeeded — in order, section
+  by section, names octet for octet, TTLs per RFC 2181 §8, RDATA as the specification itself
+  reads the RDATA given (`givenRdata`) —, followed by the OPT record (if EDNS was set) and the
+  TSIG record with the MAC returned (if TSIG was set); nothing else (failed calls left no trace:
+  `bodyRun` skips them). The header is the one held in the first four octets of the buffer.
+
+  `Op.Typed`: arguments are values of their Rust types (`Name` well formed, 16-bit type/class,
+  `Rdata` ≤ 65535 octets). `Respects`: the hint contract. `MacLenOK`: the MAC fits its
+  reservation. -/
+
+theorem C12_disabled_refinement (macFn : Tsig → List UInt8 → List UInt8) (hmac : MacLenOK macFn)
+    (ss : Session) (b : Body) (ops : List Op) (hI : I ss.w) (hlay : Lay ss.w b) (hb : b.Typed)
+    (hk : ∀ op ∈ ops, keepsDisabled op = true) (ht : ∀ op ∈ ops, op.Typed) (hr : Respects ss ops) :
+    ∃ m mac d, finish (run ss ops).1.w macFn = .ok (m, mac) ∧ Spec.Message.specDecodeMsg m = some d ∧
+      d.msg = ⟨specHeader (run ss ops).1.w.octets,
+        (bodyRun b ops (run ss ops).2).qs.map specQ,
+        (bodyRun b ops (run ss ops).2).an.map specR,
+        (bodyRun b ops (run ss ops).2).ns.map specR,
+        ((bodyRun b ops (run ss ops).2).ar ++ optRecs (run ss ops).1.w.edns ++
+          tsigRecs (run ss ops).1.w.tsig mac).map specR⟩ :=
+  disabled_refines macFn hmac ss b ops hI hlay hb hk ht hr
+
+/-- the same from a fresh writer (`Writer::new`, then `set_compression_mode(Disabled)`) -/
+theorem C12_disabled_refinement_fresh (macFn : Tsig → List UInt8 → List UInt8) (hmac : MacLenOK macFn)
+    (buf : Bytes) (limit : Nat) (s0 : State) (hnew : Writer.new buf limit = .ok s0) (ops : List Op)
+    (hk : ∀ op ∈ ops, keepsDisabled op = true) (ht : ∀ op ∈ ops, op.Typed)
+    (hr : Respects { w := { s0 with mode := .disabled } } ops) :
+    let fin := run { w := { s0 with mode := .disabled } } ops
+    let B := bodyRun {} ops fin.2
+    ∃ m mac d, finish fin.1.w macFn = .ok (m, mac) ∧ Spec.Message.specDecodeMsg m = some d ∧
+      d.msg = ⟨specHeader fin.1.w.octets, B.qs.map specQ, B.an.map specR, B.ns.map specR,
+        (B.ar ++ optRecs fin.1.w.edns ++ tsigRecs fin.1.w.tsig mac).map specR⟩ := by
+  have hI : I { s0 with mode := .disabled } := (safe_setMode .disabled s0 (new_i buf limit s0 hnew)).2
+  exact disabled_refines macFn hmac { w := { s0 with mode := .disabled } } {} ops hI
+    (lay_new buf limit s0 hnew) ⟨(fun _ h => by cases h), (fun _ h => by cases h), (fun _ h => by cases h),
+      (fun _ h => by cases h)⟩ hk ht hr
+
+/-- RDATA the writer accepted is RDATA the specification can read: the implementation's
+    `Rdata::components` table (generated from the source) is exactly the RFC layout table of the
+    specification, for every class and type -/
+theorem C12_accepted_rdata_is_wellformed (sec : RrSection) (hint : Hint) (owner : WName)
+    (ty cls ttl : Nat) (rd : List UInt8) (s : State)
+    (h : (addRrOp sec hint owner ty cls ttl rd s).1 = .ok ()) :
+    (Spec.Message.givenRdata ty cls rd).isSome = true :=
+  givenRdata_of_rdataOK cls ty rd ((addRrOp_rdata sec hint owner ty cls ttl rd s).1 h)
+
+theorem C12_component_table_is_rfc_layout (cls ty : Nat) :
+    componentTypes cls ty = some ((Spec.Message.layoutOf ty cls).map layToComp) :=
+  componentTypes_layout cls ty
 
 end QV.C12
